@@ -22,6 +22,16 @@ import (
 // get the same root hash in A and B. In addition every version still retained
 // at the end of A is exported and imported into an empty DB, which must
 // reproduce hash and contents.
+//
+// Continued histories over an import ("replicas"): at the saves of run B
+// selected by ForkMask the version just saved is exported and imported into an
+// empty DB, and from then on the replica receives every further logical
+// operation of the history next to B (its own configuration, its own reopens,
+// optionally a reload right after the import). The logical history of the
+// replica is "history up to v (delivered through export/import), then the same
+// operations"; the statement makes the root hash a function of the operation
+// history alone, so every version the replica saves must have the root hash
+// run A got for that version, and the same contents (model).
 
 type c24Case struct {
 	H       hCase  `json:"h"`
@@ -29,20 +39,250 @@ type c24Case struct {
 	ReopenB []bool `json:"reopenB"` // B reopens after its i-th save when ReopenB[i%len]
 	KeepPruneB bool `json:"keepPruneB"` // B also executes A's prune ops
 	ImpCfg  hCfg   `json:"impCfg"`  // configuration of the import target
+	ForkMask   []bool `json:"forkMask,omitempty"`   // a replica is forked (export/import into an empty DB) at B's i-th save when ForkMask[i%len]
+	ForkReload []bool `json:"forkReload,omitempty"` // the j-th replica continues on a reloaded handle (else on the importing handle)
+	Echo       int    `json:"echo,omitempty"`       // number of echo ops Draw inserted into H.Ops (statistics only)
+}
+
+// c24DrawEchoes inserts "echo" operations into a drawn history: for an
+// earlier write op chosen by a drawn selector, a later op that undoes it on
+// (a sub-range of / a neighbour of) the same keys: del -> set, delrun ->
+// setrun, set -> del, setrun/fill -> delrun, usually with a save in between.
+// Independent draws rarely come back to the very keys whose removal or
+// insertion shaped a node earlier (keys right at a leaf boundary, keys between
+// a separator and the subtree's current minimum); echoes make such revisits
+// common, in particular after a reopen or an export/import in between. The
+// echoes are ordinary history ops, executed by every run alike.
+func c24DrawEchoes(rt *rapid.T, ops []hOp) ([]hOp, int) {
+	isDel := func(t string) bool { return t == "del" || t == "delrun" }
+	isSet := func(t string) bool { return t == "set" || t == "setrun" || t == "fill" }
+	ne := rapid.IntRange(0, 3).Draw(rt, "nEcho")
+	done := 0
+	for e := 0; e < ne; e++ {
+		l := fmt.Sprintf("echo%d", e)
+		// top[i]: ops[i] is outside a detached episode (loadver .. loadlatest)
+		top := make([]bool, len(ops)+1)
+		in := false
+		var dels, sets []int
+		for i, op := range ops {
+			top[i] = !in
+			if op.T == "loadver" {
+				in = true
+			} else if op.T == "loadlatest" {
+				in = false
+			}
+			if top[i] && isDel(op.T) {
+				dels = append(dels, i)
+			} else if top[i] && isSet(op.T) {
+				sets = append(sets, i)
+			}
+		}
+		top[len(ops)] = true
+		src := dels
+		if len(src) == 0 || (len(sets) > 0 && rapid.IntRange(0, 3).Draw(rt, l+"kind") == 0) {
+			src = sets
+		}
+		if len(src) == 0 {
+			break
+		}
+		i := src[rapid.IntRange(0, len(src)-1).Draw(rt, l+"src")]
+		o := ops[i]
+		var echo hOp
+		sub := func(n int) (off, cnt int) {
+			if n < 1 {
+				n = 1
+			}
+			if rapid.IntRange(0, 2).Draw(rt, l+"whole") == 0 {
+				return 0, n
+			}
+			off = rapid.IntRange(0, n-1).Draw(rt, l+"off")
+			cnt = rapid.IntRange(1, n-off).Draw(rt, l+"cnt")
+			return
+		}
+		switch o.T {
+		case "del":
+			k := o.K
+			switch rapid.IntRange(0, 5).Draw(rt, l+"var") {
+			case 0:
+				k += rapid.SampledFrom(hSuffixes[4:]).Draw(rt, l+"sfx")
+			case 1:
+				if len(k) > 6 {
+					k = k[:6]
+				}
+			}
+			echo = hOp{T: "set", K: k, V: fmt.Sprintf("e%d", e)}
+		case "delrun":
+			off, cnt := sub(o.N)
+			echo = hOp{T: "setrun", A: o.A + off*o.S, N: cnt, S: o.S, V: fmt.Sprintf("e%d", e)}
+		case "set":
+			echo = hOp{T: "del", K: o.K}
+		case "setrun":
+			off, cnt := sub(o.N)
+			echo = hOp{T: "delrun", A: o.A + off*o.S, N: cnt, S: o.S}
+		case "fill":
+			off, cnt := sub(2 * o.N)
+			echo = hOp{T: "delrun", A: o.A + off, N: cnt, S: 1}
+			if rapid.IntRange(0, 2).Draw(rt, l+"stride") == 0 {
+				echo.S = 2
+				echo.N = (cnt + 1) / 2
+			}
+		}
+		var pos []int
+		for j := i + 1; j <= len(ops); j++ {
+			if top[j] {
+				pos = append(pos, j)
+			}
+		}
+		if len(pos) == 0 {
+			break
+		}
+		p := pos[rapid.IntRange(0, len(pos)-1).Draw(rt, l+"pos")]
+		var ins []hOp
+		if rapid.IntRange(0, 2).Draw(rt, l+"saveBefore") > 0 {
+			ins = append(ins, hOp{T: "save"})
+		}
+		ins = append(ins, echo)
+		if rapid.Bool().Draw(rt, l+"saveAfter") {
+			ins = append(ins, hOp{T: "save"})
+		}
+		ops = append(ops[:p:p], append(ins, ops[p:]...)...)
+		done++
+	}
+	return ops, done
+}
+
+// c24MaxReplicas bounds the replicas that follow the history at the same
+// time; the oldest one is checked and retired when a new one is forked.
+const c24MaxReplicas = 3
+
+type c24Replica struct {
+	r      *hRun
+	at     int64 // version it was imported at
+	idx    int   // ordinal of the fork
+	writes  int  // write ops received since the fork that left the session dirty
+	saves   int  // versions saved since the fork that contain such writes
+	pending bool // a write since the last save
 }
 
 // c24RunB replays A's logical history on b under B's configuration schedule.
-func c24RunB(b *hRun, c c24Case) error {
-	saves, cfgI := 0, 0
+// ref holds the root hashes run A obtained (version -> hash); replicas forked
+// from b are compared with it at every save they make.
+func c24RunB(b *hRun, c c24Case, ref map[int64][]byte) error {
+	saves, cfgI, forks := 0, 0, 0
 	detached := false
 	n := 0
+	var reps []*c24Replica
+	retire := func(rp *c24Replica) error {
+		defer rp.r.close()
+		rp.r.opIndex = n
+		if err := rp.r.verifyWorking(nil, true); err != nil {
+			return fmt.Errorf("replica imported at v%d (cfg %+v), after following %d writes / %d saves: %v", rp.at, rp.r.cfg, rp.writes, rp.saves, err)
+		}
+		b.ctx.ClassIf(rp.saves > 0, "replica-followed-saves")
+		b.ctx.ClassIf(rp.saves >= 3, "replica-followed>=3-saves")
+		b.ctx.ClassIf(rp.r.reopens > 0, "replica-reopened")
+		b.ctx.ClassIf(rp.r.prunesOK > 0, "replica-pruned")
+		b.ctx.ClassIf(rp.r.heightDrops > 0, "replica-height-dropped")
+		return nil
+	}
+	defer func() {
+		for _, rp := range reps {
+			rp.r.close()
+		}
+	}()
+	follow := func(rp *c24Replica, op hOp) error {
+		lat0 := rp.r.m.latest
+		if err := rp.r.step(n, &op); err != nil {
+			return fmt.Errorf("replica imported at v%d (cfg %+v) following the history: %v", rp.at, rp.r.cfg, err)
+		}
+		switch op.T {
+		case "set", "del", "setrun", "delrun", "fill":
+			if rp.r.m.dirty {
+				rp.writes++
+				rp.pending = true
+			}
+		case "rollback":
+			rp.pending = false
+		}
+		if v := rp.r.m.latest; v != lat0 {
+			if rp.pending {
+				rp.saves++
+			}
+			rp.pending = false
+			want, ok := ref[v]
+			if !ok {
+				return fmt.Errorf("replica imported at v%d saved version %d, which run A never saved (harness transform bug?)", rp.at, v)
+			}
+			if got := rp.r.hashes[v]; !bytes.Equal(got, want) {
+				return fmt.Errorf("root hash of version %d differs between the origin and a replica that imported the export of v%d into an empty DB and then received the same %d writes / %d saves: origin=%x replica=%x (replica cfg %+v)", v, rp.at, rp.writes, rp.saves, want, got, rp.r.cfg)
+			}
+			if rp.r.m.latest != b.m.latest {
+				return fmt.Errorf("replica imported at v%d is at version %d, origin at %d", rp.at, rp.r.m.latest, b.m.latest)
+			}
+		}
+		return nil
+	}
 	do := func(op hOp) error {
 		n++
-		return b.step(n, &op)
+		if err := b.step(n, &op); err != nil {
+			return err
+		}
+		for j, rp := range reps {
+			o := op
+			if op.T == "reopen" {
+				// a replica process restarts on its own schedule
+				if len(c.ReopenB) == 0 || !c.ReopenB[(saves+rp.idx+1)%len(c.ReopenB)] {
+					continue
+				}
+				cfg := c.CfgB[(cfgI+rp.idx+1)%len(c.CfgB)]
+				if j%2 == 1 {
+					cfg = c.ImpCfg
+				}
+				o.Cfg = &cfg
+			}
+			if err := follow(rp, o); err != nil {
+				return err
+			}
+		}
+		return nil
+	}
+	fork := func() error {
+		v := b.m.latest
+		if len(c.ForkMask) == 0 || !c.ForkMask[saves%len(c.ForkMask)] {
+			return nil
+		}
+		if len(b.m.work) == 0 || b.m.vers[v] == nil {
+			return nil // an empty version cannot be exported (ErrNotInitializedTree)
+		}
+		cfg := c.ImpCfg
+		if forks%2 == 1 {
+			cfg = c.CfgB[forks%len(c.CfgB)]
+		}
+		reload := len(c.ForkReload) > 0 && c.ForkReload[forks%len(c.ForkReload)]
+		rr, err := c24Fork(b, v, cfg, reload)
+		if err != nil {
+			return err
+		}
+		if len(reps) == c24MaxReplicas {
+			if err := retire(reps[0]); err != nil {
+				return err
+			}
+			reps = append(reps[:0:0], reps[1:]...)
+		}
+		reps = append(reps, &c24Replica{r: rr, at: v, idx: forks})
+		forks++
+		b.ctx.Class("replica-forked")
+		return nil
 	}
 	saveB := func() error {
+		lat0 := b.m.latest
 		if err := do(hOp{T: "save"}); err != nil {
 			return err
+		}
+		if b.m.latest != lat0 {
+			if err := fork(); err != nil {
+				return err
+			}
 		}
 		if len(c.ReopenB) > 0 && c.ReopenB[saves%len(c.ReopenB)] {
 			cfgI++
@@ -98,29 +338,28 @@ func c24RunB(b *hRun, c c24Case) error {
 			return err
 		}
 	}
+	for _, rp := range reps {
+		if err := retire(rp); err != nil {
+			return err
+		}
+	}
+	reps = nil
 	return nil
 }
 
-func c24ExportImport(ctx *vk.Ctx, r *hRun, v int64, cfg hCfg) error {
-	s := r.m.vers[v]
-	imm, err := r.tree.GetImmutable(v)
+// c24Export drains Export(nil) of version v and checks that the exported leaf
+// entries are exactly the version's contents, in order.
+func c24Export(tree *bp.MutableTree, v int64, s *hSnap) ([]*bp.ExportNode, error) {
+	imm, err := tree.GetImmutable(v)
 	if err != nil {
-		return fmt.Errorf("export: GetImmutable(%d): %v", v, err)
+		return nil, fmt.Errorf("export: GetImmutable(%d): %v", v, err)
 	}
 	defer imm.Close()
 	// An external package cannot name *nodeDB; the untyped nil makes the
 	// exporter use the snapshot's own (DB-only) value resolver.
 	ex, err := imm.Export(nil)
-	if len(s.keys) == 0 {
-		if err == nil {
-			ex.Close()
-			return fmt.Errorf("export of empty version %d succeeded; documented to fail with ErrNotInitializedTree", v)
-		}
-		ctx.Class("export-empty-refused")
-		return nil
-	}
 	if err != nil {
-		return fmt.Errorf("Export of v%d: %v", v, err)
+		return nil, fmt.Errorf("Export of v%d: %v", v, err)
 	}
 	var nodes []*bp.ExportNode
 	for {
@@ -130,30 +369,33 @@ func c24ExportImport(ctx *vk.Ctx, r *hRun, v int64, cfg hCfg) error {
 		}
 		if err != nil {
 			ex.Close()
-			return fmt.Errorf("Exporter.Next v%d: %v", v, err)
+			return nil, fmt.Errorf("Exporter.Next v%d: %v", v, err)
 		}
 		nodes = append(nodes, n)
 	}
 	ex.Close()
-	// the exported leaf entries are exactly the version's contents, in order
 	i := 0
 	for _, n := range nodes {
 		if n.Height == 0 {
 			if i >= len(s.keys) || string(n.Key) != s.keys[i] || string(n.Value) != s.vals[s.keys[i]] {
-				return fmt.Errorf("export v%d: leaf entry %d is (%q,%q), model differs", v, i, n.Key, n.Value)
+				return nil, fmt.Errorf("export v%d: leaf entry %d is (%q,%q), model differs", v, i, n.Key, n.Value)
 			}
 			i++
 		}
 	}
 	if i != len(s.keys) {
-		return fmt.Errorf("export v%d: %d leaf entries, model has %d", v, i, len(s.keys))
+		return nil, fmt.Errorf("export v%d: %d leaf entries, model has %d", v, i, len(s.keys))
 	}
-	dst := memdb.NewMemDB()
-	t2 := bp.NewMutableTreeWithDB(dst, cfg.Cache, nil, hOptions(cfg, 0)...)
-	if lv, err := t2.Load(); err != nil || lv != 0 {
+	return nodes, nil
+}
+
+// c24Import feeds an export stream of version v into t (a handle over an
+// empty DB) and commits it.
+func c24Import(t *bp.MutableTree, v int64, nodes []*bp.ExportNode, want []byte) error {
+	if lv, err := t.Load(); err != nil || lv != 0 {
 		return fmt.Errorf("Load on empty import target = (%d,%v)", lv, err)
 	}
-	imp, err := t2.Import(v)
+	imp, err := t.Import(v)
 	if err != nil {
 		return fmt.Errorf("Import(%d) into an empty DB: %v", v, err)
 	}
@@ -168,11 +410,83 @@ func c24ExportImport(ctx *vk.Ctx, r *hRun, v int64, cfg hCfg) error {
 		return fmt.Errorf("Importer.Commit v%d: %v", v, err)
 	}
 	imp.Close()
-	if t2.Version() != v {
-		return fmt.Errorf("imported tree Version() = %d, want %d", t2.Version(), v)
+	if t.Version() != v {
+		return fmt.Errorf("imported tree Version() = %d, want %d", t.Version(), v)
 	}
-	if !bytes.Equal(t2.Hash(), s.hash) {
-		return fmt.Errorf("imported v%d hash %x, original %x", v, t2.Hash(), s.hash)
+	if !bytes.Equal(t.Hash(), want) {
+		return fmt.Errorf("imported v%d hash %x, original %x", v, t.Hash(), want)
+	}
+	return nil
+}
+
+// c24Fork exports the latest version v of src, imports it into an empty DB
+// and returns a run (tree + model) over that DB which can follow the rest of
+// the history. With reload (always when the fast index is on: a handle with
+// the index enabled goes through Load() before its working tree is used) the
+// replica continues on a fresh handle, otherwise on the importing handle.
+func c24Fork(src *hRun, v int64, cfg hCfg, reload bool) (*hRun, error) {
+	s := src.m.vers[v]
+	nodes, err := c24Export(src.tree, v, s)
+	if err != nil {
+		return nil, err
+	}
+	rp := &hRun{ctx: src.ctx, inner: memdb.NewMemDB(), cfg: cfg, m: hNewModel(0), hashes: map[int64][]byte{}, lightOnly: true}
+	rp.db = hNewCrashDB(rp.inner)
+	rp.everFast = cfg.Fast
+	rp.tree = bp.NewMutableTreeWithDB(rp.db, cfg.Cache, nil, hOptions(cfg, 0)...)
+	if err := c24Import(rp.tree, v, nodes, s.hash); err != nil {
+		rp.tree.Close()
+		return nil, fmt.Errorf("fork a replica: %v", err)
+	}
+	rp.m.vers[v] = s
+	rp.m.latest = v
+	rp.m.resetWorkTo(v)
+	for _, k := range src.m.recent {
+		rp.m.touch(k)
+	}
+	rp.opIndex = src.opIndex
+	if reload || cfg.Fast {
+		src.ctx.Class("replica-on-reloaded-handle")
+		if err := rp.reopen(cfg); err != nil {
+			rp.close()
+			return nil, fmt.Errorf("replica of v%d, reload after import: %v", v, err)
+		}
+		rp.reopens = 0
+	} else {
+		src.ctx.Class("replica-on-importing-handle")
+		if err := rp.verifyWorking(nil, false); err != nil {
+			rp.close()
+			return nil, fmt.Errorf("replica of v%d, importing handle: %v", v, err)
+		}
+	}
+	return rp, nil
+}
+
+func c24ExportImport(ctx *vk.Ctx, r *hRun, v int64, cfg hCfg) error {
+	s := r.m.vers[v]
+	if len(s.keys) == 0 {
+		imm, err := r.tree.GetImmutable(v)
+		if err != nil {
+			return fmt.Errorf("export: GetImmutable(%d): %v", v, err)
+		}
+		defer imm.Close()
+		ex, err := imm.Export(nil)
+		if err == nil {
+			ex.Close()
+			return fmt.Errorf("export of empty version %d succeeded; documented to fail with ErrNotInitializedTree", v)
+		}
+		ctx.Class("export-empty-refused")
+		return nil
+	}
+	nodes, err := c24Export(r.tree, v, s)
+	if err != nil {
+		return err
+	}
+	dst := memdb.NewMemDB()
+	t2 := bp.NewMutableTreeWithDB(dst, cfg.Cache, nil, hOptions(cfg, 0)...)
+	if err := c24Import(t2, v, nodes, s.hash); err != nil {
+		t2.Close()
+		return err
 	}
 	// contents through the importing handle, then through a fresh handle
 	// (Load; rebuilds the fast index when enabled), then a snapshot.
@@ -228,7 +542,7 @@ func c24Exec(ctx *vk.Ctx, c c24Case) error {
 	}
 	defer b.close()
 	b.lightOnly = true
-	if err := c24RunB(b, c); err != nil {
+	if err := c24RunB(b, c, a.hashes); err != nil {
 		return fmt.Errorf("run B (config %+v): %v", b.cfg, err)
 	}
 	if len(a.hashes) != len(b.hashes) {
@@ -270,6 +584,7 @@ func c24Exec(ctx *vk.Ctx, c c24Case) error {
 			return err
 		}
 	}
+	ctx.ClassIf(c.Echo > 0, "echo-ops")
 	ctx.Note("versions", len(a.hashes))
 	ctx.NTIf(a.saves >= 2 && a.maxHeight >= 1 && diffCfg)
 	return nil
@@ -289,6 +604,11 @@ func TestC24_Differential(t *testing.T) {
 				o.MaxOps = 70
 			}
 			c := c24Case{H: hDrawHistory(rt, o)}
+			c.H.Ops, c.Echo = c24DrawEchoes(rt, c.H.Ops)
+			if rapid.IntRange(0, 3).Draw(rt, "finalSave") > 0 {
+				// hash the tail of the history too
+				c.H.Ops = append(c.H.Ops, hOp{T: "save"})
+			}
 			n := rapid.IntRange(1, 3).Draw(rt, "ncfgB")
 			for i := 0; i < n; i++ {
 				c.CfgB = append(c.CfgB, hDrawCfg(rt, fmt.Sprintf("cfgB%d", i), 5))
@@ -299,6 +619,14 @@ func TestC24_Differential(t *testing.T) {
 			}
 			c.KeepPruneB = rapid.IntRange(0, 3).Draw(rt, "keepPrune") == 0
 			c.ImpCfg = hDrawCfg(rt, "imp", 5)
+			nf := rapid.IntRange(1, 3).Draw(rt, "nfork")
+			for i := 0; i < nf; i++ {
+				c.ForkMask = append(c.ForkMask, rapid.IntRange(0, 3).Draw(rt, fmt.Sprintf("fork%d", i)) > 0)
+			}
+			nr := rapid.IntRange(1, 2).Draw(rt, "nforkReload")
+			for i := 0; i < nr; i++ {
+				c.ForkReload = append(c.ForkReload, rapid.Bool().Draw(rt, fmt.Sprintf("forkReload%d", i)))
+			}
 			return c
 		},
 		Exec: c24Exec,
